@@ -1,7 +1,7 @@
-; harness ListingAtStartUp assert L3-listed-iff-requested-matching-and-permitted expected unsat
+; harness ListingAfterDynamicCreate assert L3-listed-iff-requested-matching-and-permitted expected unsat
 (set-logic ALL)
-(declare-const perm_Wallet1_acc2 Bool)
-(assert perm_Wallet1_acc2)
-(define-fun t44 () Bool (not perm_Wallet1_acc2))
-(assert t44)
+(declare-const perm_Wallet1_acc9 Bool)
+(assert perm_Wallet1_acc9)
+(define-fun t222 () Bool (not perm_Wallet1_acc9))
+(assert t222)
 (check-sat)
